@@ -62,18 +62,19 @@ func lockOp(info *types.Info, call *ast.CallExpr) (fld *types.Var, op string) {
 	default:
 		return nil, ""
 	}
-	rs, ok := ast.Unparen(s.X).(*ast.SelectorExpr)
-	if !ok {
-		// embedded mutex: x.Lock() where x is a struct embedding sync.Mutex — find the embedded field
-		if sel := info.Selections[s]; sel != nil && len(sel.Index()) > 1 {
-			t := derefT(sel.Recv())
-			if st, ok := t.Underlying().(*types.Struct); ok {
-				f := st.Field(sel.Index()[0])
-				if isMutexType(f.Type()) {
-					return f.Origin(), s.Sel.Name
-				}
+	// embedded mutex: x.Lock() where x is (a pointer to) a struct embedding sync.Mutex — the
+	// method is promoted through the embedded field
+	if sel := info.Selections[s]; sel != nil && len(sel.Index()) > 1 {
+		t := derefT(sel.Recv())
+		if st, ok := t.Underlying().(*types.Struct); ok {
+			f := st.Field(sel.Index()[0])
+			if isMutexType(f.Type()) {
+				return f.Origin(), s.Sel.Name
 			}
 		}
+	}
+	rs, ok := ast.Unparen(s.X).(*ast.SelectorExpr)
+	if !ok {
 		return nil, ""
 	}
 	sel := info.Selections[rs]
